@@ -328,7 +328,8 @@ TEXT = ("Held on every evaluation observed: ~10 000 (quick) / ~400 000 (thorough
         "(before and after changes made through the manager), in item and attribute element modes and both builds: "
         "deferred vs immediate numbers, and Python's value of the generator's mirror term for the fully parenthesised "
         "half. Exploration up to depth 6."
-        ' A fresh environment (manager, containers, parsers; same container labels, other values) replaces the current one every 150 strings while the earlier ones stay alive.')
+        ' A fresh environment (manager, containers, parsers; same container labels, other values) replaces the current one every 150 strings while the earlier ones stay alive.'
+        ' One environment in four holds numpy float64 scalars and 1-d / 2-d arrays (element-wise arithmetic).')
 NOTE = ("Trusted: the generator's mirror terms (derived together with the strings) and Python's math module as reference; "
         "exception types are deliberately not compared.")
 TECHNIQUE = "runtime monitoring: three-way differential oracle per generated MAD-X string (deferred vs immediate vs Python mirror), re-evaluated after variable changes through the manager"
